@@ -1,4 +1,4 @@
-\* design check (quick tier), features only: all version subsets x 4 protocol sets x 5 stream sets x 3^5 flag tri-states
+\* design check (quick tier), features only: all version subsets x 4 protocol sets x 5 stream sets x 108 flag seeds
 CONSTANTS
   NZ = 2
   AxisVs <- AllVs
@@ -9,8 +9,8 @@ CONSTANTS
   TriH2c <- Tri
   TriTls <- Tri
   TriCerts <- Tri
-  TriTrailers <- Tri
-  TriHdh1 <- Tri
+  TriTrailers = {"unset", "false"}
+  TriHdh1 = {"unset", "true"}
   TriGet = {"unset"}
   TriLim = {"unset"}
   EntryPool = {}
